@@ -64,11 +64,25 @@ func VX_C09_observe() {
 		// full-length index, first two rows swapped, last row in place
 		ix = vxIota(n)
 		ix[0], ix[1] = 1, 0
+	} else if vx.HasParam("ix") && vx.ParamStr("ix") == "mid" {
+		// full-length index, first and last row in place, the middle permuted
+		ix = vxIota(n)
+		ix[1], ix[2] = 2, 1
 	} else {
 		ix = vxConcIndex(n, P)
 	}
 	f := vxFrame(names, cols, ix)
-	if vx.HasParam("pre") {
+	if vx.HasParam("pre") && vx.ParamStr("pre") == "siblings" {
+		// two frames derived from one parent by adding different columns: the first one is
+		// observed after the second one was made
+		p := f.Copy("p", "a")
+		s1 := p.Copy("x", "a")
+		s2 := p.Copy("y", "f")
+		vx.Check(s2.Err == nil, "second sibling")
+		f = s1
+		names = append(append([]string{}, names...), "p", "x")
+		cols = append(append([]vxCol{}, cols...), cols[0], cols[0])
+	} else if vx.HasParam("pre") {
 		// a frame obtained by projecting and then replacing a moved column
 		f = f.Select("e", "s", "c", "f", "a").Copy("s", "e")
 		names = []string{"e", "s", "c", "f", "a"}
